@@ -31,11 +31,10 @@ theorem C15_trace_sorted (budget : Nat) (mc ms : List Machine) (sq : SimQueue) (
   | ok st =>
     simp only []
     have hgood := loop_stream_sorted ρ a (loopFuel a budget) st 0 0
-    cases hs : (loop ρ a (loopFuel a budget) st 0 0).stop with
-    | fault f => simp
-    | queueEmpty | maxTrace | maxIter | noNormal | loopFuel =>
-      simp only []
-      rw [record_eq_filter a _ hgood.2, List.pairwise_map]
+    rw [finish_trace a _ hgood.2]
+    split
+    · simp
+    · rw [List.pairwise_map]
       exact List.Pairwise.filter _ hgood.2
 
 /-- **The final sort is the identity**: the returned trace is the kept part of the iteration
@@ -51,11 +50,12 @@ theorem C15_final_sort_identity (budget : Nat) (mc ms : List Machine) (sq : SimQ
     simp only [hi] at hok
     simp only []
     have hgood := loop_stream_sorted ρ a (loopFuel a budget) st 0 0
-    cases hs : (loop ρ a (loopFuel a budget) st 0 0).stop with
-    | fault f => simp [hs] at hok
-    | queueEmpty | maxTrace | maxIter | noNormal | loopFuel =>
-      simp only []
-      exact record_eq_filter a _ hgood.2
+    have hnf : (loop ρ a (loopFuel a budget) st 0 0).stop.isFault = false := by
+      cases hs : (loop ρ a (loopFuel a budget) st 0 0).stop with
+      | fault f => exact absurd (by rw [finish_stop, hs]) (hok f)
+      | queueEmpty | maxTrace | maxIter | noNormal | loopFuel => rfl
+    rw [finish_trace a _ hgood.2, finish_stream, hnf]
+    simp
 
 /-- **One TunnelRecv per TunnelSent, one network delay later, same kind.** -/
 theorem C15_one_recv_per_send (next : SimEvent) (sq sq' : SimQueue) (byp : Bool) (net net' : Bottleneck) (now : Int)
